@@ -576,6 +576,30 @@ func newC13Recv(seed int64, v int, quick bool, thin int) *c13Recv {
 			}
 		}
 	}
+	// tagged plaintext: the whitespace tag base followed by EVERY 8-character group of blanks and tabs (the version
+	// tags of this library, the OTRv1 tag, one-off variants, …), alone and behind a v2 / v3 / v1 / all-blank group
+	{
+		base := string(refTagBase)
+		group := func(n int) string {
+			b := make([]byte, 8)
+			for i := range b {
+				b[i] = ' '
+				if n&(1<<uint(i)) != 0 {
+					b[i] = '\t'
+				}
+			}
+			return string(b)
+		}
+		firsts := []string{"", string(refWS("2")), string(refWS("3")), string(refWS("1")), "        "}
+		for fi, f := range firsts {
+			for n := 0; n < 256; n++ {
+				if quick && fi > 0 && n%8 != fi {
+					continue // quick: second groups thinned 1/8 (first groups all)
+				}
+				p.extra = append(p.extra, c13MutCase{"tag", []byte("hi" + base + f + group(n) + " there"), fmt.Sprintf("whitespace tag base + %q + group %08b", f, n)})
+			}
+		}
+	}
 	for _, x := range p.extra {
 		p.inputs = append(p.inputs, x.in)
 		p.idesc = append(p.idesc, x.desc)
@@ -707,6 +731,15 @@ func (p *c13Recv) locate(ix int) (si int, in []byte, desc string) {
 func (p *c13Recv) Describe(ix int) string {
 	si, _, d := p.locate(ix)
 	return fmt.Sprintf("v%d state %s: %s", p.v, p.states[si].Name, d)
+}
+
+// c13InputClass: class of the input alone (a case that kills the process in one conversation state usually does so
+// in all of them: one signature, not one per state)
+func c13InputClass(desc string) string {
+	if i := strings.Index(desc, ": "); i >= 0 && strings.Contains(desc[:i], " state ") {
+		desc = desc[i+2:]
+	}
+	return c13Class(desc)
 }
 
 func c13Class(desc string) string {
@@ -1013,10 +1046,18 @@ func verifC13Worker(args []string) int {
 	}
 	out := bufio.NewWriter(os.Stdout)
 	evals, nontriv := 0, 0
+	lastPrint := time.Now()
 	for b := from; b < to; b += batch * step {
 		fmt.Fprintf(out, "B %d\n", b)
 		out.Flush()
+		lastPrint = time.Now()
 		for i := b; i < to && i < b+batch; i++ {
+			if time.Since(lastPrint) > time.Second {
+				// sign of life (and position) for the watchdog
+				fmt.Fprintf(out, "P %d\n", i)
+				out.Flush()
+				lastPrint = time.Now()
+			}
 			fs, nt := part.Run(i)
 			evals++
 			if nt {
@@ -1037,11 +1078,12 @@ type c13WorkerResult struct {
 	evals, nontriv int
 	findings       []map[string]interface{}
 	lastBatch      int
+	lastCase       int    // last case known to have been reached (sign-of-life lines)
 	died           string // non-empty: abnormal end
 }
 
 func c13Spawn(part string, from, to, batch int, seed int64, tier string, stall time.Duration, step ...int) c13WorkerResult {
-	res := c13WorkerResult{lastBatch: -1}
+	res := c13WorkerResult{lastBatch: -1, lastCase: -1}
 	st := 1
 	if len(step) > 0 {
 		st = step[0]
@@ -1083,6 +1125,9 @@ func c13Spawn(part string, from, to, batch int, seed int64, tier string, stall t
 			switch {
 			case strings.HasPrefix(l, "B "):
 				res.lastBatch, _ = strconv.Atoi(l[2:])
+				res.lastCase = res.lastBatch
+			case strings.HasPrefix(l, "P "):
+				res.lastCase, _ = strconv.Atoi(l[2:])
 			case strings.HasPrefix(l, "F "):
 				var m map[string]interface{}
 				if json.Unmarshal([]byte(l[2:]), &m) == nil {
@@ -1112,6 +1157,7 @@ func c13RunPart(r *verifReport, part string, n int, batch int) {
 	nw := runtime.NumCPU()
 	var mu sync.Mutex
 	var wg sync.WaitGroup
+	totalCulprits := 0 // fatal / hanging cases isolated so far in this part (all workers)
 	absorb := func(res c13WorkerResult) {
 		mu.Lock()
 		r.Evals += int64(res.evals)
@@ -1139,11 +1185,18 @@ func c13RunPart(r *verifReport, part string, n int, batch int) {
 			culprits := 0
 			from := k * batch
 			for from < n {
+				mu.Lock()
+				tot := totalCulprits
+				mu.Unlock()
+				if tot >= 6 {
+					note("part %s: %d fatal cases confirmed; the remaining batches of this worker share (from case %d, stride %d) were not evaluated", part, tot, from, nw)
+					return
+				}
 				if culprits >= 4 {
 					note("part %s: more than 4 fatal cases in one worker share; batches from case %d on (stride %d) not evaluated", part, from, nw)
 					return
 				}
-				res := c13Spawn(part, from, n, batch, r.Seed, r.Tier, 180*time.Second, nw)
+				res := c13Spawn(part, from, n, batch, r.Seed, r.Tier, 45*time.Second, nw)
 				absorb(res)
 				if res.died == "" {
 					return
@@ -1158,7 +1211,11 @@ func c13RunPart(r *verifReport, part string, n int, batch int) {
 				if hi > n {
 					hi = n
 				}
-				iso := c13Spawn(part, b, hi, 1, r.Seed, r.Tier, 90*time.Second)
+				lo := b
+			if res.lastCase > lo && res.lastCase < hi {
+				lo = res.lastCase // everything before the last sign of life went through
+			}
+			iso := c13Spawn(part, lo, hi, 1, r.Seed, r.Tier, 25*time.Second)
 				culprit := iso.lastBatch
 				if iso.died == "" || culprit < 0 {
 					note("worker for %s died in batch %d (%s) but the batch passed in isolation", part, b, res.died)
@@ -1166,9 +1223,12 @@ func c13RunPart(r *verifReport, part string, n int, batch int) {
 					continue
 				}
 				culprits++
+				mu.Lock()
+				totalCulprits++
+				mu.Unlock()
 				confirmed := 0
 				for i := 0; i < 2; i++ {
-					if c := c13Spawn(part, culprit, culprit+1, 1, r.Seed, r.Tier, 90*time.Second); c.died != "" {
+					if c := c13Spawn(part, culprit, culprit+1, 1, r.Seed, r.Tier, 25*time.Second); c.died != "" {
 						confirmed++
 					}
 				}
@@ -1180,14 +1240,14 @@ func c13RunPart(r *verifReport, part string, n int, batch int) {
 						kind = "hang"
 					}
 					mu.Lock()
-					r.addCase("C13", fmt.Sprintf("C13:%s:%s:%s", kind, part, c13Class(desc)), fmt.Sprintf("worker process dies on this case (%s): %s", iso.died, desc), c13Case{Part: part, Ix: culprit, Desc: desc})
+					r.addCase("C13", fmt.Sprintf("C13:%s:%s:%s", kind, part, c13InputClass(desc)), fmt.Sprintf("worker process dies on this case (%s): %s", iso.died, desc), c13Case{Part: part, Ix: culprit, Desc: desc})
 					mu.Unlock()
 				} else {
 					note("case %d of %s killed a worker once but not on isolated replays", culprit, part)
 				}
 				// the rest of that batch, then on with the stride
 				if culprit+1 < hi {
-					rest := c13Spawn(part, culprit+1, hi, batch, r.Seed, r.Tier, 180*time.Second)
+					rest := c13Spawn(part, culprit+1, hi, batch, r.Seed, r.Tier, 45*time.Second)
 					absorb(rest)
 					if rest.died != "" {
 						note("part %s: cases %d..%d not evaluated (another fatal case in the same batch)", part, culprit+1, hi)
@@ -1217,7 +1277,7 @@ func init() {
 				tier = "quick"
 			}
 			// replay in a subprocess: the case may kill the process
-			res := c13Spawn(c.Part, c.Ix, c.Ix+1, 1, seed, tier, 90*time.Second)
+			res := c13Spawn(c.Part, c.Ix, c.Ix+1, 1, seed, tier, 25*time.Second)
 			var fs []verifFinding
 			for _, f := range res.findings {
 				fs = append(fs, verifFinding{f["sig"].(string), f["detail"].(string)})
@@ -1228,13 +1288,13 @@ func init() {
 				if strings.Contains(res.died, "no progress") {
 					kind = "hang"
 				}
-				fs = append(fs, verifFinding{fmt.Sprintf("C13:%s:%s:%s", kind, c.Part, c13Class(p.Describe(c.Ix))), res.died})
+				fs = append(fs, verifFinding{fmt.Sprintf("C13:%s:%s:%s", kind, c.Part, c13InputClass(p.Describe(c.Ix))), res.died})
 			}
 			return fs
 		},
 		Run: func(r *verifReport) {
-			r.Rule = "exhaustive bounded input enumeration, every call under recover with heap allocation measured (bound 1 MiB + 4096·len): (bytes) all byte strings ≤ 6 over {00,01,7f,80,ff} into every binary parser; (sexp) all strings ≤ 7 over ( ) \" # a F space into the s-expression and key-file readers (also behind valid prefixes); (mut) every truncation, single deletion and word/char substitution of valid key and MPI serialisations and of a libotr key file; (recv) 18 conversation states (two of them key-less conversations talked into an exchange) × {every raw and base64 truncation and length-word substitution of every genuine message kind, ?OTR marker variants ≤ 9 chars, fragment header variants, sizeable pieces continuing a fragment train whose announced total is 65535, single-piece trains whose content is again OTR-shaped (fragment, query, error, encoded message), authenticated-but-malicious TLV payloads incl. every ordered pair (thorough: triple) of the ten TLV kinds in one message} into Receive, followed by a usability probe (End, fresh exchange, text both ways) whenever the state changed; (rand) every index k at which the k-th read of Conversation.Rand fails or is short, then usability with a healed source. Non-trivial = accepted by a parser / changed state or produced an error or event"
-			r.Assumptions = []string{"workers run with RLIMIT_AS = 6 GiB; a worker that dies or stalls > 180 s is isolated to the single case and confirmed on two further isolated runs before it is reported", "allocation is read from runtime/metrics /gc/heap/allocs:bytes around each call"}
+			r.Rule = "exhaustive bounded input enumeration, every call under recover with heap allocation measured (bound 1 MiB + 4096·len): (bytes) all byte strings ≤ 6 over {00,01,7f,80,ff} into every binary parser; (sexp) all strings ≤ 7 over ( ) \" # a F space into the s-expression and key-file readers (also behind valid prefixes); (mut) every truncation, single deletion and word/char substitution of valid key and MPI serialisations and of a libotr key file; (recv) 18 conversation states (two of them key-less conversations talked into an exchange) × {every raw and base64 truncation and length-word substitution of every genuine message kind, ?OTR marker variants ≤ 9 chars, fragment header variants, sizeable pieces continuing a fragment train whose announced total is 65535, single-piece trains whose content is again OTR-shaped (fragment, query, error, encoded message), tagged plaintext with every 8-character blank/tab group behind the whitespace tag base, authenticated-but-malicious TLV payloads incl. every ordered pair (thorough: triple) of the ten TLV kinds in one message} into Receive, followed by a usability probe (End, fresh exchange, text both ways) whenever the state changed; (rand) every index k at which the k-th read of Conversation.Rand fails or is short, then usability with a healed source. Non-trivial = accepted by a parser / changed state or produced an error or event"
+			r.Assumptions = []string{"workers run with RLIMIT_AS = 6 GiB; a worker that dies or gives no sign of life for 45 s (it reports its position every second) is isolated to the single case and confirmed on two further isolated runs before it is reported", "allocation is read from runtime/metrics /gc/heap/allocs:bytes around each call"}
 			for _, part := range []string{"bytes", "sexp", "mut", "recv3", "recv2", "rand"} {
 				p := c13BuildPart(part, r.Seed, r.Tier)
 				n := p.Count()
